@@ -98,6 +98,42 @@ def _check_sig(R, repo, rel, cn, method, spec):
     if key not in spec:
         raise AnalysisError(f'no reference signature for {key} (resolved from {cn}); add it to sa/specs after reading the code')
     exp = spec[key]
+    variants = _case_variants(fn)
+    if variants:
+        # a local bound to `a if <flag> else b` (integer constants): the reference signature must hold in BOTH cases
+        for label, vfn in variants:
+            vsig = sw.Signature(vfn, rename=sw.role_renames(vfn))
+            _compare_sig(R, w, f'{key} [{label}]', vfn, vsig, exp)
+        return
+    _compare_sig(R, w, key, fn, sig, exp)
+
+
+def _case_variants(fn):
+    import copy
+    cases = [s for s in fn.body if isinstance(s, ast.Assign) and len(s.targets) == 1 and isinstance(s.targets[0], ast.Name) and isinstance(s.value, ast.IfExp)
+             and all(isinstance(b, ast.Constant) and isinstance(b.value, int) and not isinstance(b.value, bool) for b in (s.value.body, s.value.orelse))]
+    if len(cases) != 1:
+        return []
+    st = cases[0]
+    name = st.targets[0].id
+    if sum(1 for x in ast.walk(fn) if isinstance(x, (ast.Assign, ast.AugAssign)) and any(isinstance(n, ast.Name) and n.id == name and isinstance(n.ctx, ast.Store) for n in ast.walk(x))) != 1:
+        return []
+    out = []
+    for flag, const in ((ast.unparse(st.value.test), st.value.body), (f'not ({ast.unparse(st.value.test)})', st.value.orelse)):
+        v = copy.deepcopy(fn)
+        v.body = [x for x in v.body if not (isinstance(x, ast.Assign) and len(x.targets) == 1 and isinstance(x.targets[0], ast.Name) and x.targets[0].id == name)]
+
+        class Sub(ast.NodeTransformer):
+            def visit_Name(self, n):
+                if n.id == name and isinstance(n.ctx, ast.Load):
+                    return ast.copy_location(ast.Constant(value=const.value), n)
+                return n
+        v = ast.fix_missing_locations(Sub().visit(v))
+        out.append((f'case {flag}: {name} = {const.value}', v))
+    return out
+
+
+def _compare_sig(R, w, key, fn, sig, exp):
     found_lines = sig.select(sw.TRACKED)
     found = [l.text() for l in found_lines] + _call_lines(sig) + ['RETURN ' + x for x in sw.return_exprs(fn, sig)]
     missing, extra = compare([_T(t) for t in found], exp['lines'], exp.get('alts'))
